@@ -4,16 +4,16 @@
 # /root/.vp/BASELINE.json (stable_pass).  Exit 0 iff every stable test still passes.
 cd /repo || exit 2
 export CARGO_NET_OFFLINE=true
-unset RUSTFLAGS
+unset RUSTFLAGS CARGO_ENCODED_RUSTFLAGS CARGO_BUILD_RUSTFLAGS
 OUT=/verif/work/baseline_off.log
 mkdir -p /verif/work
-rm -f /repo/target/nextest/pb/junit.xml
+rm -f /repo/target/nextest/pb/junit.xml /repo/target/nextest/default/junit.xml
 if [ -f /w/lib/nextest.toml ]; then
   timeout 10000 cargo nextest run --workspace --no-fail-fast --tool-config-file pb:/w/lib/nextest.toml --profile pb --test-threads 8 --offline >"$OUT" 2>&1
   JUNIT=/repo/target/nextest/pb/junit.xml
 else
-  printf '[profile.default.junit]\npath = "junit.xml"\n' > /tmp/nextest-junit.toml
-  timeout 10000 cargo nextest run --workspace --no-fail-fast --config-file /tmp/nextest-junit.toml --test-threads 8 --offline >"$OUT" 2>&1
+  printf '[profile.default.junit]\npath = "junit.xml"\n' > /verif/work/nextest-junit.toml
+  timeout 10000 cargo nextest run --workspace --no-fail-fast --config-file /verif/work/nextest-junit.toml --test-threads 8 --offline >"$OUT" 2>&1
   JUNIT=/repo/target/nextest/default/junit.xml
 fi
 python3 - "$JUNIT" <<'PY'
